@@ -75,6 +75,7 @@ pub fn run(out: &mut Out, thorough: bool, seed: u64, _extra: &[String]) {
             continue;
         }
         let benc = BatchEncoder::new(s.ctx.clone());
+        if !benc.simd_encoding_supported() { continue; }
         let slots: Vec<u64> = (0..n).map(|_| r.below(t)).collect();
         let plain = benc.encode_new(&slots);
         let msg: Vec<u64> = { let mut v = plain.data().clone(); v.resize(n, 0); v };
@@ -108,16 +109,15 @@ pub fn run(out: &mut Out, thorough: bool, seed: u64, _extra: &[String]) {
             let res = s.evaluator.rotate_columns_new(&ct, &all_keys);
             out.case(&format!("prog {} {} {}", s.ct_case(&res), pred0, fl(&trim(&shadow_subst(&msg, 2 * n - 1, t)))), &format!("{}-cols-l{}", scheme_name(scheme), level), || s.dec_str(&res));
             if benc.decode_new(&s.decryptor.decrypt_new(&res)) == swap_rows(&slots) { out.raw(&format!("!OK rotate_columns_slots n={} # cols-slots", n)); } else { out.raw(&format!("!FAIL rotate_columns_slots n={} :: rows not swapped # cols-slots", n)); }
-            // switching to another secret key
+            // a ciphertext under ANOTHER secret key, switched to this key generator's key
+            // (`create_keyswitching_key(other)` supports switching FROM `other` TO the generator's own key)
             let kg2 = KeyGenerator::new(s.ctx.clone());
             let ksk = s.keygen.create_keyswitching_key(kg2.secret_key(), false);
-            let res = s.evaluator.apply_keyswitching_new(&ct, &ksk);
-            let dec2 = Decryptor::new(s.ctx.clone(), kg2.secret_key().clone());
-            // the case is printed with the NEW key as secret key
-            let kd = s.ctx.key_context_data().unwrap(); let q0 = kd.parms().coeff_modulus()[0].value();
-            let mut s0 = kg2.secret_key().data()[..n].to_vec(); kd.small_ntt_tables()[0].inverse_ntt_negacyclic_harvey(&mut s0);
-            let sk2: Vec<i64> = s0.iter().map(|&x| if x > q0 / 2 { x as i64 - q0 as i64 } else { x as i64 }).collect();
-            out.case(&format!("prog {} {} {} {} {}", s.head(res.parms_id()), fli(&sk2), s.ct_str(&res), pred0, fl(&trim(&msg))), &format!("{}-keyswitch-l{}", scheme_name(scheme), level), || { let p = dec2.decrypt_new(&res); fl(&p.data()[..p.coeff_count()]) });
+            let enc2 = Encryptor::new(s.ctx.clone()).set_secret_key(kg2.secret_key().clone());
+            let mut ct2 = Ciphertext::new(); enc2.encrypt_symmetric(&plain, &mut ct2);
+            if level == 1 { ct2 = s.evaluator.mod_switch_to_next_new(&ct2); }
+            let res = s.evaluator.apply_keyswitching_new(&ct2, &ksk);
+            out.case(&format!("prog {} {} {}", s.ct_case(&res), pred0, fl(&trim(&msg))), &format!("{}-keyswitch-l{}", scheme_name(scheme), level), || s.dec_str(&res));
         }
         let _ = (plain_of(&[1]), rand_msg(&mut r, 2, 3));
     }
